@@ -191,6 +191,65 @@ def auto_rules(text, fired):
 
 
 # ----------------------------------------------------------------------------------------------
+# R6: scratchpad binding lifting;  R11: loop-header desugaring of slice iterator adapters
+
+R6_LET = re.compile(r'[ \t]*let\s+(?:mut\s+)?(?:\w+|\([^)]*\))\s*=\s*scratchpad\s*\.\s*\w+\(\s*&?self\.\w+\s*\);[ \t]*\n?')
+R6_SCALAR = re.compile(r'scratchpad\s*\.\s*get_scalar\(\s*&self\.(\w+)\s*\)')
+
+
+def rule_r6(text, newsig, fired):
+    """`fn execute(&mut self, .., scratchpad) -> R {` becomes `fn <newsig> -> R {`; `let x = scratchpad.get*(self.f);`
+    statements are dropped (x becomes a parameter); `scratchpad.get_scalar(&self.f)` becomes the parameter `f`."""
+    m = re.search(r'fn\s+execute\s*\([^)]*\)', text)
+    if not m:
+        raise GenError('R6: no `fn execute(...)` in item')
+    text = text[:m.start()] + keep_lines(m.group(0), 'fn ' + newsig) + text[m.end():]
+    n = [0]
+
+    def drop(mo):
+        n[0] += 1
+        return keep_lines(mo.group(0), '')
+    text = R6_LET.sub(drop, text)
+    text, k = R6_SCALAR.subn(lambda mo: mo.group(1), text)
+    fired['R6'] = fired.get('R6', 0) + 1 + n[0] + k
+    if 'scratchpad' in text:
+        raise GenError('R6: scratchpad still referenced after lifting')
+    return text
+
+
+def _bind(pat, expr):
+    pat = pat.strip()
+    if pat.startswith('&'):
+        return 'let %s = %s;' % (pat[1:].strip(), expr)
+    return 'let %s = &%s;' % (pat, expr)
+
+
+R11_ZIP_ENUM = re.compile(r'for\s*\(\s*(\w+)\s*,\s*\(\s*(&?\w+)\s*,\s*(&?\w+)\s*\)\s*\)\s*in\s+(\w+)\.iter\(\)\.zip\((\w+)\.iter\(\)\)\.enumerate\(\)\s*\{')
+R11_ZIP = re.compile(r'for\s*\(\s*(&?\w+)\s*,\s*(&?\w+)\s*\)\s*in\s+(\w+)\.iter\(\)\.zip\((\w+)\.iter\(\)\)\s*\{')
+R11_ENUM = re.compile(r'for\s*\(\s*(\w+)\s*,\s*(&?\w+)\s*\)\s*in\s+(\w+)\.iter\(\)\.enumerate\(\)\s*\{')
+R11_REF = re.compile(r'for\s+&(\w+)\s+in\s+(\w+)\.iter\(\)\s*\{')
+R11_PLAIN = re.compile(r'for\s+(\w+)\s+in\s+(\w+)\.iter\(\)\s*\{')
+
+
+def rule_r11(text, fired):
+    n = [0]
+
+    def c(f):
+        def g(mo):
+            n[0] += 1
+            return keep_lines(mo.group(0), f(mo))
+        return g
+    text = R11_ZIP_ENUM.sub(c(lambda m: 'for vx_k in 0..vx_min(%s.len(), %s.len()) { let %s = vx_k; %s %s' % (
+        m.group(4), m.group(5), m.group(1), _bind(m.group(2), m.group(4) + '[vx_k]'), _bind(m.group(3), m.group(5) + '[vx_k]'))), text)
+    text = R11_ZIP.sub(c(lambda m: 'for vx_k in 0..vx_min(%s.len(), %s.len()) { %s %s' % (
+        m.group(3), m.group(4), _bind(m.group(1), m.group(3) + '[vx_k]'), _bind(m.group(2), m.group(4) + '[vx_k]'))), text)
+    text = R11_ENUM.sub(c(lambda m: 'for %s in 0..%s.len() { %s' % (m.group(1), m.group(3), _bind(m.group(2), '%s[%s]' % (m.group(3), m.group(1))))), text)
+    text = R11_REF.sub(c(lambda m: 'for vx_k in 0..%s.len() { let %s = %s[vx_k];' % (m.group(2), m.group(1), m.group(2))), text)
+    text = R11_PLAIN.sub(c(lambda m: 'for vx_k in 0..%s.len() { let %s = &%s[vx_k];' % (m.group(2), m.group(1), m.group(2))), text)
+    if n[0]:
+        fired['R11'] = fired.get('R11', 0) + n[0]
+    return text
+
 
 class Clause:
     def __init__(self, cid, kind, text, fn, tpl_line):
@@ -437,6 +496,11 @@ def extract_item(block, unit, fired_total, clauses, meta_items, mode='verus'):
         text = auto_rules(text, fired)
     rw_log = []
     for (w, a, ln) in block.directives:
+        if w == 'r6':
+            text = rule_r6(text, a, fired)
+        elif w == 'r11':
+            text = rule_r11(text, fired)
+    for (w, a, ln) in block.directives:
         if w == 'rw':
             m = re.match(r'^(\S+)\s+/(.*)/\s*=>\s*/(.*)/\s*(\{(\d+)(?:,(\d+))?\})?$', a, re.S)
             if not m:
@@ -448,7 +512,7 @@ def extract_item(block, unit, fired_total, clauses, meta_items, mode='verus'):
                 cnt[0] += 1
                 return keep_lines(mo.group(0), mo.expand(rep))
             text = re.sub(pat, f, text, flags=re.S | re.M)
-            lo = int(m.group(5)) if m.group(5) else 1
+            lo = int(m.group(5)) if m.group(5) else 0
             hi_ = int(m.group(6)) if m.group(6) else (lo if m.group(5) else None)
             if cnt[0] < lo or (hi_ is not None and cnt[0] > hi_):
                 raise GenError('anchor lost: rewrite %s /%s/ fired %d times in %s (expected %s)' % (
@@ -586,7 +650,7 @@ def extract_item(block, unit, fired_total, clauses, meta_items, mode='verus'):
             tgt, tk = locate(text, cur_segs)
             ls = line_start(text, tk[tgt.first].start)
             add(ls, tag_lines(a, 'attr', '    '))
-        elif w in ('ret', 'rw', 'only', 'drop', 'name', 'semi', 'from', 'to', 'head', 'tail'):
+        elif w in ('ret', 'rw', 'only', 'drop', 'name', 'semi', 'from', 'to', 'head', 'tail', 'r6', 'r11'):
             pass
         else:
             raise GenError('template line %s: unknown directive %r' % (ln, w))
